@@ -20,6 +20,9 @@ Operations (JSON-able lists):
   ["sync", c, tok]           REPORT sync-collection; tok = None | int (index into tokens seen so far)
                              | ["ws", int] (token padded with white space) | ["mal", str] (literal string)
   ["ptok", c]                PROPFIND D:sync-token
+  ["syncfail", c, tok, mode] REPORT during which the write of the token file fails once with ENOSPC
+                             (mode "enospc": before a byte is written, "trunc": after half of the pickle)
+Configuration key `prefix`: None | "script" (environ SCRIPT_NAME=/radicale) | "xscript" (X-Script-Name header).
 """
 import os
 import pickle
@@ -59,8 +62,47 @@ def calendar_text(items):
     return body + "END:VCALENDAR\r\n"
 
 
+class TokenWriteFault:
+    """While active, the `pickle.dump` the sync module sees (only the token-state write uses it) fails once with
+    ENOSPC: mode "enospc" before a byte is written, mode "trunc" after half of the pickle reached the file."""
+
+    def __init__(self, mode):
+        self.mode = mode
+        self.fired = False
+
+    def __enter__(self):
+        import errno
+        import radicale.storage.multifilesystem.sync as sync_mod
+        self.sync_mod = sync_mod
+        self.real = sync_mod.pickle
+        outer = self
+
+        class Proxy:
+            def __getattr__(self, name):
+                return getattr(outer.real, name)
+
+            def dump(self, obj, f, *a, **kw):
+                if outer.fired:
+                    return outer.real.dump(obj, f, *a, **kw)
+                outer.fired = True
+                if outer.mode == "trunc":
+                    data = outer.real.dumps(obj)
+                    f.write(data[:max(1, len(data) // 2)])
+                    f.flush()
+                raise OSError(errno.ENOSPC, "No space left on device (injected)")
+        sync_mod.pickle = Proxy()
+        return self
+
+    def __exit__(self, *a):
+        self.sync_mod.pickle = self.real
+
+
 class World:
-    def __init__(self, sub_item=False, sub_hist=False, sub_tok=False, max_age=1000):
+    def __init__(self, sub_item=False, sub_hist=False, sub_tok=False, max_age=1000, prefix=None):
+        # prefix: None | "script" (environ SCRIPT_NAME=/radicale) | "xscript" (X-Script-Name: /radicale)
+        self.prefix = prefix
+        self.base = "/radicale" if prefix else ""
+        self.env = {"script": {"SCRIPT_NAME": "/radicale"}, "xscript": {"HTTP_X_SCRIPT_NAME": "/radicale"}}.get(prefix, {})
         import radicale.storage.multifilesystem.cache as cache_mod
         global _real_time_module
         if _real_time_module is None:
@@ -68,7 +110,7 @@ class World:
         self.cache_mod = cache_mod
         self.clock = Clock()
         cache_mod.time = self.clock
-        self.cfg = dict(sub_item=sub_item, sub_hist=sub_hist, sub_tok=sub_tok, max_age=max_age)
+        self.cfg = dict(sub_item=sub_item, sub_hist=sub_hist, sub_tok=sub_tok, max_age=max_age, prefix=prefix)
         self.srv = impl.Server({
             "auth": {"type": "none"}, "rights": {"type": "authenticated"},
             "storage": {"max_sync_token_age": str(max_age),
@@ -92,9 +134,16 @@ class World:
         self.close()
 
     def req(self, method, path, data=None, **kw):
-        r = self.srv.request(method, path, data=data, login="u:", **kw)
+        r = self.srv.request(method, path, data=data, login="u:", environ=dict(self.env), **kw)
         self.normalise()
         return r
+
+    def href_index(self, c, href):
+        """index of the item an emitted href denotes in collection c: it must be exactly base prefix + path"""
+        want = self.base + self.cpath(c)
+        if href.startswith(want) and href[len(want):] in HREFS:
+            return HREFS.index(href[len(want):])
+        return -99
 
     def cpath(self, c):
         return "/u/c%d/" % c
@@ -146,17 +195,17 @@ class World:
 
     # ------------------------------------------------------------------ observation
     def view(self, c):
-        """Ground truth: Depth:1 PROPFIND getetag.  None when the collection does not exist."""
-        st, ms = self.srv.propfind(self.cpath(c), depth="1", props=("D:getetag",), login="u:")
+        """Ground truth: Depth:1 PROPFIND getetag, keyed by the hrefs exactly as the server emits them.
+        None when the collection does not exist."""
+        st, ms = self.srv.propfind(self.cpath(c), depth="1", props=("D:getetag",), login="u:", environ=dict(self.env))
         if st != 207:
             return None
         out = {}
         for href, props in ms.items():
-            if href.rstrip("/") == self.cpath(c).rstrip("/"):
+            if href.rstrip("/") == (self.base + self.cpath(c)).rstrip("/"):
                 continue
-            name = href.rsplit("/", 1)[1]
             if isinstance(props, dict) and "D:getetag" in props and props["D:getetag"][0] == 200:
-                out[name] = props["D:getetag"][1].text
+                out[href] = props["D:getetag"][1].text
         return out
 
     def sync_report(self, c, token_text):
@@ -164,6 +213,8 @@ class World:
                 + ("<D:sync-token>%s</D:sync-token>" % token_text if token_text is not None else "")
                 + "</D:sync-collection>")
         st, hd, b = self.req("REPORT", self.cpath(c), data=body)
+        if st >= 500:
+            return ("failed", st)
         if st == 404:
             return ("nocoll",)
         if st == 403 and b"valid-sync-token" in b:
@@ -175,16 +226,15 @@ class World:
         ms = impl.parse_multistatus(b)
         delta = {}
         for href, props in ms.items():
-            name = href.rsplit("/", 1)[1]
             if isinstance(props, int):
-                delta[name] = None if props == 404 else ("status", props)
+                delta[href] = None if props == 404 else ("status", props)
             else:
                 st_e, el = props.get("D:getetag", (None, None))
-                delta[name] = el.text if st_e == 200 else ("status", st_e)
+                delta[href] = el.text if st_e == 200 else ("status", st_e)
         return ("delta", tok, delta)
 
     def propfind_token(self, c):
-        st, ms = self.srv.propfind(self.cpath(c), depth="0", props=("D:sync-token",), login="u:")
+        st, ms = self.srv.propfind(self.cpath(c), depth="0", props=("D:sync-token",), login="u:", environ=dict(self.env))
         self.normalise()
         if st != 207:
             return ("nocoll",)
@@ -202,7 +252,7 @@ class World:
         for c in range(NCOLL):
             exists = os.path.isdir(self.root_dir(c))
             v = self.view(c) if exists else None
-            items = sorted((HREFS.index(h), self.cid(e)) for h, e in (v or {}).items())
+            items = sorted((self.href_index(c, h), self.cid(e)) for h, e in (v or {}).items())
             hist = []
             try:
                 names = sorted(os.listdir(self.hist_dir(c)))
@@ -225,8 +275,11 @@ class World:
                 if n.startswith("."):
                     continue
                 p = os.path.join(self.tok_dir(c), n)
-                with open(p, "rb") as f:
-                    state = pickle.load(f)
+                try:
+                    with open(p, "rb") as f:
+                        state = pickle.load(f)
+                except Exception:
+                    state = None               # damaged token file
                 toks.append((NS_TOKEN + n, int(os.stat(p).st_mtime), state))
             raw.append((exists, items, hist, toks))
         # canonical ids: tokens are known from responses; an unknown one gets a new id here (sorted by name)
@@ -239,6 +292,9 @@ class World:
             toks_k.sort(key=lambda x: (x[0], x[1]))
             toks_c = []
             for _, t, mt, state in toks_k:
+                if state is None:
+                    toks_c.append((self.tid(t), mt, None))
+                    continue
                 snap = sorted((HREFS.index(h), he) for h, he in state.items())
                 toks_c.append((self.tid(t), mt, [(h, self.heid(he)) for h, he in snap]))
             out.append((exists, items, hist_c, toks_c))
@@ -274,7 +330,7 @@ class World:
         if k == "move":
             _, c, h, c2, h2 = op
             st, _, _ = self.req("MOVE", self.cpath(c) + HREFS[h],
-                                HTTP_DESTINATION="http://127.0.0.1" + self.cpath(c2) + HREFS[h2],
+                                HTTP_DESTINATION="http://127.0.0.1" + self.base + self.cpath(c2) + HREFS[h2],
                                 HTTP_OVERWRITE="T")
             return st in (201, 204), ("status", st)
         if k == "replace":
@@ -282,7 +338,7 @@ class World:
             st, _, _ = self.req("PUT", self.cpath(c), data=calendar_text(items), CONTENT_TYPE="text/calendar")
             if st in (201, 204):
                 v = self.view(c) or {}
-                return True, ("items", sorted((HREFS.index(h), self.cid(e)) for h, e in v.items()))
+                return True, ("items", sorted((self.href_index(c, h), self.cid(e)) for h, e in v.items()))
             return False, ("status", st)
         if k == "delcoll":
             st, _, _ = self.req("DELETE", self.cpath(op[1]))
@@ -299,13 +355,23 @@ class World:
         if k == "tick":
             self.clock.now += int(op[1])
             return True, None
-        if k == "sync":
-            _, c, tok = op
-            r = self.sync_report(c, self.token_text(tok))
+        if k in ("sync", "syncfail"):
+            c, tok = op[1], op[2]
+            if k == "syncfail":
+                with TokenWriteFault(op[3]) as fault:
+                    r = self.sync_report(c, self.token_text(tok))
+                self.normalise()
+                if r[0] == "failed" and not fault.fired:
+                    r = ("error", r[1], "5xx without an injected fault")
+            else:
+                r = self.sync_report(c, self.token_text(tok))
+                if r[0] == "failed":
+                    r = ("error", r[1], "5xx")
             if r[0] == "delta":
-                delta = sorted((HREFS.index(h), (None if e is None else self.cid(e)) if not isinstance(e, tuple) else e)
-                               for h, e in r[2].items())
-                return True, ("delta", self.tid(r[1]), delta)
+                raw = sorted(r[2].items())
+                delta = sorted((self.href_index(c, h), (None if e is None else self.cid(e)) if not isinstance(e, tuple) else e)
+                               for h, e in raw)
+                return True, ("delta", self.tid(r[1]), delta, raw)
             return True, r
         if k == "ptok":
             r = self.propfind_token(op[1])
@@ -350,9 +416,11 @@ class Monitor:
                          "the collection did not change" % (t, self.current[c]))
             self._issued(c, t, presented=None)
             return
-        if k != "sync" or not result:
+        if k not in ("sync", "syncfail") or not result:
             return
         c, tok = op[1], op[2]
+        if result[0] == "failed":
+            return                # the injected write fault made the request fail: nothing was handed out
         if result[0] == "error":
             self.err("sync answered %r" % (result,))
             return
@@ -374,7 +442,7 @@ class Monitor:
             return
         if result[0] != "delta":
             return
-        _, t_new, delta = result
+        _, t_new, delta, raw = result
         truth = w.view(c)
         if truth is None:
             self.err("sync accepted on a collection PROPFIND does not find")
@@ -384,25 +452,22 @@ class Monitor:
                 self.err("delta entry with status %r" % (e,))
         key = (c, presented)
         if presented is not None and key in self.held:
+            # the client keys what it holds by the hrefs exactly as the server emitted them
             v = dict(self.held[key])
-            for h, e in delta:
-                name = HREFS[h]
+            for href, e in raw:
                 if e is None:
-                    v.pop(name, None)
-                else:
-                    v[name] = w.etags[e]
+                    v.pop(href, None)
+                elif not isinstance(e, tuple):
+                    v[href] = e
             if v != truth:
                 self.err("client holding token %d applied the delta %r and has %r, server has %r" % (
-                    presented, delta, _short(v), _short(truth)))
+                    presented, _short(dict(raw)), _short(v), _short(truth)))
             if self.current.get(c) == presented:
                 if delta or t_new != presented:
                     self.err("up-to-date token %d: expected empty list and the same token, got delta %r and token %d" % (
                         presented, delta, t_new))
         if presented is None and tok is None:
-            v = {}
-            for h, e in delta:
-                if e is not None:
-                    v[HREFS[h]] = w.etags[e]
+            v = {href: e for href, e in raw if e is not None and not isinstance(e, tuple)}
             if v != truth:
                 self.err("initial sync lists %r, server has %r" % (_short(v), _short(truth)))
         if c in self.current and self.current[c] != t_new:
@@ -428,7 +493,7 @@ class Monitor:
 
 
 def _short(v):
-    return {h: e[1:9] for h, e in sorted(v.items())}
+    return {h: (e[1:9] if isinstance(e, str) else e) for h, e in sorted(v.items())}
 
 
 # ---------------------------------------------------------------------------------- generator
@@ -554,6 +619,21 @@ def gen_history(rng, n_ops, max_age, max_tokens=5):
                 tok = ["mal", rng.choice(MALFORMED)]
             else:
                 tok = ["unknown"]
+            if rng.random() < 0.07:
+                # the token write of this REPORT fails; afterwards the same state is synced again and changed
+                ops.append(["syncfail", c, tok, rng.choice(["enospc", "trunc"])])
+                if rng.random() < 0.8:
+                    ops.append(["sync", c, None])
+                    h = rng.randrange(len(HREFS))
+                    if h in present[c]:
+                        ops.append(["del", c, h])
+                        present[c].pop(h, None)
+                    else:
+                        ops.append(["put", c, h, UIDS[h], rng.choice([0, 1])])
+                        if exists[c] and UIDS[h] not in uids_in(c):
+                            present[c][h] = (UIDS[h], ops[-1][4])
+                    ops.append(["sync", c, ["last"]])
+                continue
             ops.append(["sync", c, tok])
             if exists[c]:
                 issued[c] += 1
@@ -611,10 +691,10 @@ def run_history(cfg, ops, monitor=True, dumps=True):
         owned = {}
         for i, op in enumerate(ops):
             op = list(op)
-            if op[0] == "sync":
+            if op[0] in ("sync", "syncfail"):
                 op[2] = resolve_token(w, op[2], op[1], last, owned)
             accepted, result = w.apply(op)
-            if op[0] in ("sync", "ptok") and result and result[0] in ("delta", "token"):
+            if op[0] in ("sync", "syncfail", "ptok") and result and result[0] in ("delta", "token"):
                 last[op[1]] = result[1]
                 owned.setdefault(op[1], []).append(result[1])      # one entry per hand-out (a client per hand-out)
             if mon:
@@ -631,7 +711,9 @@ def run_history(cfg, ops, monitor=True, dumps=True):
 # ---------------------------------------------------------------------------------- encoding for the Coq model
 def ser_result(op, result):
     k = op[0]
-    if k in ("sync", "ptok"):
+    if k in ("sync", "syncfail", "ptok"):
+        if result[0] == "failed":
+            return [5]
         if result[0] == "nocoll":
             return [1]
         if result[0] == "refused":
@@ -658,6 +740,9 @@ def ser_dump(dump):
             out += [h, ce, he, mt - T0]
         out.append(len(toks))
         for t, mt, snap in toks:
+            if snap is None:
+                out += [t, mt - T0, -1]         # damaged token file: never equal to a model observation
+                continue
             out += [t, mt - T0, len(snap)]
             for h, he in snap:
                 out += [h, he]
@@ -686,7 +771,7 @@ def iop_text(op, result):
         return "ITick %s" % N(op[1])
     if k == "ptok":
         return "IPTok %s" % N(op[1])
-    if k == "sync":
+    if k in ("sync", "syncfail"):
         tok = op[2]
         if tok is None:
             a = "TNone"
@@ -698,7 +783,7 @@ def iop_text(op, result):
             a = "TNone" if tok[1].strip() == "" else "TMal"
         else:
             raise ValueError(tok)
-        return "ISync %s %s" % (N(op[1]), a)
+        return "%s %s %s" % ("ISync" if k == "sync" else "ISyncFail", N(op[1]), a)
     raise ValueError(op)
 
 
